@@ -147,7 +147,32 @@ func (g *G) as() string {
 func (g *G) OutputExpr() string { return g.outputExpr() }
 
 func (g *G) outputExpr() string {
-	switch g.R.Intn(12) {
+	switch g.R.Intn(14) {
+	case 12, 13:
+		// asterisk column with named members (generated columns with a table prefix)
+		g.count("out:t.* AS &T.m")
+		pre := "*"
+		if g.R.Chance(2, 3) {
+			pre = g.R.Pick(plainIdents) + ".*"
+		}
+		n := 1 + g.R.Intn(2)
+		used := map[string]bool{}
+		member := func() string {
+			t := g.typ("member")
+			m := g.tag(t)
+			for i := 0; used[t.Name+"."+m] && i < 5; i++ {
+				m = g.tag(t)
+			}
+			used[t.Name+"."+m] = true
+			return "&" + t.Name + "." + m
+		}
+		if n == 1 && g.R.Chance(1, 2) {
+			return pre + g.as() + member()
+		}
+		if g.R.Chance(1, 2) {
+			pre = "(" + pre + ")"
+		}
+		return pre + g.as() + g.list(n, member)
 	case 0, 1:
 		g.count("out:&T.*")
 		return "&" + g.typ("struct").Name + ".*"
